@@ -92,6 +92,18 @@ def _case(draw):
         src = gen.any_doc_d(d) + "\n\n" + "".join(d.pick(INL) + d.pick(["", " "]) for _ in range(d.i(1, 5)))
     else:
         src = gen.inline(d, 0, False, 8)
+    if d.chance(0.15):
+        # the same inline content more than once in one document (equal paragraphs, list items, table cells)
+        rep = d.pick(["para", "para", "items", "cells", "heading+para"])
+        one = src.split("\n")[0] if rep != "para" else src
+        if rep == "para":
+            src = src + "\n\n" + src
+        elif rep == "items":
+            src = "- " + one + "\n- " + one + "\n"
+        elif rep == "cells":
+            src = "| " + one + " | " + one + " |\n|---|---|\n| " + one + " | " + one + " |\n"
+        else:
+            src = "# " + one + "\n\n" + one + "\n"
     return {"kind": "onoff", "preset": preset, "quotes": q, "mode": mode, "src": src, "linkify": d.chance(0.15), "html": d.chance(0.5), "late": d.chance(0.3)}
 
 
